@@ -31,6 +31,8 @@ MUTATORS = set([
     '__setitem__', '__setslice__', '__iadd__', '__isub__', '__imul__', '__itruediv__', '__idiv__',
     'updatemeta', 'updatetflag', 'getVarlist', '_add2Varlist', 'setncatts', '__missing__', 'addkey',
     'swapaxes',  # PseudoNetCDFVariable.swapaxes stores .dimensions on the *new* view it returns
+    '_updatetime',  # ioapi_base: stamps CDATE/CTIME/WDATE/WTIME by contract
+    'setdefvars', 'addtime', 'adddims', 'setgrid',  # griddesc constructor helpers: build self by contract
 ])
 # functional forms whose contract is to modify the file they are given (DESIGN 4/C05)
 FUNC_MUTATORS = {'mask_vals': 'masks f in place and returns f', 'mesh_dim': 'replaces variables of f in place',
@@ -272,7 +274,10 @@ def run(ctx):
                     obj_params_of={'addVariableProperties': ['pvar']})
     n += check_qmut(ctx, 'core/_functions.py', functions=set(FUNC_FILE_PARAMS) | set(FUNC_MUTATORS),
                     file_params_of=FUNC_FILE_PARAMS)
-    ctx.floor('functions under R-QMUT', n, 120)
+    n += check_qmut(ctx, 'cmaqfiles/_ioapi.py', classes=('ioapi_base', 'ioapi'), obj_params_of={'copyVariable': ['var']})
+    n += check_qmut(ctx, 'cmaqfiles/_griddesc.py', classes=('griddesc',))
+    n += check_qmut(ctx, 'core/_wrapnc.py', classes=('WrapPNC',))
+    ctx.floor('functions under R-QMUT', n, 150)
     check_close(ctx)
     ctx.assumptions += [
         'numpy view/copy fact table in pncstatic/prov.py (basic indexing, .T, .view, swapaxes, asarray are views; '
